@@ -69,7 +69,7 @@ func capData(p *core.Prog, r *core.Result) {
 				if bi, ok := c.Common().Value.(*ssa.Builtin); ok && bi.Name() == "cap" {
 					isCap = true
 				}
-				if sc := c.Common().StaticCallee(); sc != nil && sc.Name() == "Cap" && sc.Pkg != nil && sc.Pkg.Pkg.Path() == "reflect" {
+				if sc := c.Common().StaticCallee(); sc != nil && core.FuncName(sc) == "Cap" && sc.Pkg != nil && sc.Pkg.Pkg.Path() == "reflect" {
 					isCap = true
 				}
 				if !isCap {
@@ -107,7 +107,7 @@ func capData(p *core.Prog, r *core.Result) {
 						case *ssa.MakeSlice:
 							// sizes an allocation
 						case *ssa.Call:
-							if sc := x.Common().StaticCallee(); sc != nil && sc.Pkg != nil && sc.Pkg.Pkg.Path() == "reflect" && (sc.Name() == "MakeSlice" || sc.Name() == "Grow" || sc.Name() == "MakeMapWithSize") {
+							if sc := x.Common().StaticCallee(); sc != nil && sc.Pkg != nil && sc.Pkg.Pkg.Path() == "reflect" && (core.FuncName(sc) == "MakeSlice" || core.FuncName(sc) == "Grow" || core.FuncName(sc) == "MakeMapWithSize") {
 								continue
 							}
 							name := "a call"
@@ -347,10 +347,10 @@ func (k *cdClient) Instr(s cdState, in ssa.Instruction) (cdState, bool, []cdStat
 		}
 		return s, true, nil
 	}
-	if (sc.Name() == "push" || sc.Name() == "pop") && sc.Signature.Recv() != nil && len(cc.Args) > 0 {
+	if (core.FuncName(sc) == "push" || core.FuncName(sc) == "pop") && sc.Signature.Recv() != nil && len(cc.Args) > 0 {
 		if f := k.ctxField(cc.Args[0]); f != "" {
 			d := 1
-			if sc.Name() == "pop" {
+			if core.FuncName(sc) == "pop" {
 				d = -1
 			}
 			return s.add(f, d), true, nil
@@ -758,7 +758,7 @@ func completionAgree(p *core.Prog, r *core.Result, sp *ssa.Package, ctxNamed *ty
 		cnt := 0
 		for _, f := range p.ModFuncs() {
 			pk := core.FuncPkg(f)
-			if pk == nil || pk.Name() != "gotype" || f.Name() != "OnArrayStart" || len(f.Params) < 3 {
+			if pk == nil || pk.Name() != "gotype" || core.FuncName(f) != "OnArrayStart" || len(f.Params) < 3 {
 				continue
 			}
 			var lprm *ssa.Parameter
@@ -779,7 +779,7 @@ func completionAgree(p *core.Prog, r *core.Result, sp *ssa.Package, ctxNamed *ty
 							trunc = append(trunc, x.High)
 						}
 					case *ssa.Call:
-						if sc := x.Common().StaticCallee(); sc != nil && sc.Name() == "SetLen" && funcPkgPath(sc) == "reflect" && len(x.Common().Args) == 2 {
+						if sc := x.Common().StaticCallee(); sc != nil && core.FuncName(sc) == "SetLen" && funcPkgPath(sc) == "reflect" && len(x.Common().Args) == 2 {
 							trunc = append(trunc, x.Common().Args[1])
 						}
 					}
@@ -811,7 +811,7 @@ func completionAgree(p *core.Prog, r *core.Result, sp *ssa.Package, ctxNamed *ty
 	inits := 0
 	for _, f := range p.ModFuncs() {
 		pk := core.FuncPkg(f)
-		if pk == nil || pk.Name() != "gotype" || f.Signature.Recv() == nil || strings.HasPrefix(f.Name(), "On") || ctxParam(f, ctxNamed) == nil {
+		if pk == nil || pk.Name() != "gotype" || f.Signature.Recv() == nil || strings.HasPrefix(core.FuncName(f), "On") || ctxParam(f, ctxNamed) == nil {
 			continue
 		}
 		var top types.Type
@@ -824,7 +824,7 @@ func completionAgree(p *core.Prog, r *core.Result, sp *ssa.Package, ctxNamed *ty
 					continue
 				}
 				sc := call.Common().StaticCallee()
-				if sc == nil || sc.Name() != "push" || len(call.Common().Args) < 2 {
+				if sc == nil || core.FuncName(sc) != "push" || len(call.Common().Args) < 2 {
 					continue
 				}
 				fa, ok := call.Common().Args[0].(*ssa.FieldAddr)
